@@ -10,5 +10,6 @@ PINS = [
  ("c15_twins_agree", "twins_agree", "two implementations that both agree with the model on every case agree with each other"),
  ("c15_edge_eq_directed", "edge_eqb_d_spec", "directed Edge equality is equality of both endpoints by key; the value is not compared"),
  ("c15_edge_order", "edge_cmp_spec", "Edge ordering is the ordering of the edge values (all flavours)"),
+ ("c15_edge_reverse", "edge_reverse_spec", "Edge::reverse swaps the endpoints, keeps the value, and is an involution"),
  ("c15_edge_eq_undirected", "edge_eqb_u_spec", "undirected Edge equality is equality of the edge values"),
 ]
